@@ -113,7 +113,7 @@ def cpp_enum(name):
     m = _MODULE[0]
     if m is None:
         return f"sim::{name}"
-    return "sim::" + D.cpp_type_name(m, m.enum(name))
+    return D.cpp_type_name(m, m.enum(name))
 
 
 def ctype_for_param(p):
@@ -178,13 +178,15 @@ class DriverGen:
         for i, p in enumerate(sd.params):
             args.append(f"static_cast<{ctype_for_param(p)}>({pv}[{i}])")
         args += [f"ptr({arena}, {off})", ln]
+        ns = self.m.namespace + ("lib" if D.in_lib(self.m, sd) else "")
         if aligned:
-            return f"sim::MakeAligned{sd.name}View<unsigned char, {self.aligned}>({', '.join(args)})"
-        return f"sim::Make{sd.name}View({', '.join(args)})"
+            return f"{ns}::MakeAligned{sd.name}View<unsigned char, {self.aligned}>({', '.join(args)})"
+        return f"{ns}::Make{sd.name}View({', '.join(args)})"
 
     def null_type(self, sd):
         args = [f"{ctype_for_param(p)}()" for p in sd.params] + ["static_cast<unsigned char *>(nullptr)", "size_t(0)"]
-        return f"decltype(sim::Make{sd.name}View({', '.join(args)}))"
+        ns = self.m.namespace + ("lib" if D.in_lib(self.m, sd) else "")
+        return f"decltype({ns}::Make{sd.name}View({', '.join(args)}))"
 
     def write_paths(self, sd, prefix_expr="v", prefix_path="", depth=0):
         """Yields (path, accessor expression, kind, enum name) for writable scalars."""
